@@ -147,6 +147,10 @@ structure Sys where
       session and before the 16-bit counter wraps (a join, and the wrap, start a new epoch). -/
   acceptedUp : List (Bytes × Nat) := []
   issuedDn : List (Bytes × Nat) := []
+  /-- more history: (device, counter) of every data downlink handed to the gateway, and the devices
+      whose downlink-counter epoch has ended (join or 16-bit wrap), most recent first. -/
+  emittedDn : List (Bytes × Nat) := []
+  resetsDn : List Bytes := []
   deriving Repr, Inhabited
 
 def Sys.init (db : DB) : Sys := { db := db, fob := [], scheduled := [], threads := [], emitted := [], published := [], now := 1 }
@@ -434,7 +438,8 @@ def stepJoin (E : BlockFn) (cfg : Config) (sys : Sys) (s : JoinSt) (fault : Bool
                       devAddr := if d.devAddr = 0 then s.newAddr else d.devAddr }
     if fault then (sys, [.done])
     else match sys.db.updateDevice d with
-      | some db => ({ sys with db := db, acceptedUp := forget sys.acceptedUp d.eui, issuedDn := forget sys.issuedDn d.eui },
+      | some db => ({ sys with db := db, acceptedUp := forget sys.acceptedUp d.eui, issuedDn := forget sys.issuedDn d.eui,
+                                resetsDn := d.eui :: sys.resetsDn },
                     [.join { s with pc := 5, dev := d }])
       | none => (sys, [.done])
   | 5 =>
@@ -455,7 +460,8 @@ def stepEncoder (E D : BlockFn) (sys : Sys) (pc : Nat) (p : PHY) (c : Ctx) (byte
       else match sys.db.updateState d with
         | none => (sys, [.done])
         | some db =>
-          let sys := { sys with db := db, acceptedUp := forget sys.acceptedUp d.eui, issuedDn := forget sys.issuedDn d.eui }
+          let sys := { sys with db := db, acceptedUp := forget sys.acceptedUp d.eui, issuedDn := forget sys.issuedDn d.eui,
+                                resetsDn := d.eui :: sys.resetsDn }
           match encodeJoinAccept E D d.appKey p with
           | .ok b => (sys, [.encoder 1 p { c with device := d } b])
           | _ => (sys, [.done])
@@ -468,7 +474,8 @@ def stepEncoder (E D : BlockFn) (sys : Sys) (pc : Nat) (p : PHY) (c : Ctx) (byte
       else match sys.db.nextFCntDn c.device.eui with
         | none => (sys, [.done])
         | some (db, f) =>
-          let sys := { sys with db := db, issuedDn := noteCounter sys.issuedDn c.device.eui f }
+          let sys := { sys with db := db, issuedDn := noteCounter sys.issuedDn c.device.eui f,
+                                resetsDn := if f + 1 < 65536 then sys.resetsDn else c.device.eui :: sys.resetsDn }
           let p := { p with mac := { p.mac with fhdr := { p.mac.fhdr with fcnt := f } } }
           let c := { c with device := { c.device with fcntDn := (f + 1) % 65536 } }
           match encodeMessage E c.device.nwkSKey c.device.appSKey p with
@@ -478,7 +485,8 @@ def stepEncoder (E D : BlockFn) (sys : Sys) (pc : Nat) (p : PHY) (c : Ctx) (byte
       -- SetMessageSentTime (errors ignored)
       let sys := if fault then sys else { sys with db := sys.db.setSent c.device.eui c.payloadCreate sys.now c.device.fcntUp, now := sys.now + 1 }
       (sys, [.encoder 2 p c bytes])
-    | _ => ({ sys with emitted := sys.emitted ++ [⟨bytes, c.gw, 1, c.device.eui⟩] }, [.done])
+    | _ => ({ sys with emitted := sys.emitted ++ [⟨bytes, c.gw, 1, c.device.eui⟩],
+                       emittedDn := sys.emittedDn ++ [(c.device.eui, p.mac.fhdr.fcnt)] }, [.done])
   else (sys, [.done])
 
 /-- One step of thread `i`. -/
